@@ -39,6 +39,7 @@ FACTORY = (
     ("pe", ("proj", ("b",)), "s", True, False, False),
     ("pe", ("proj", ("c",)), "e1", True, False, False),
     ("slice", 1, 3),
+    ("slice", 0, 9),
     ("dedup",),
     ("chain", ("self",)),
     ("join", ("K",), None, False),
